@@ -26,6 +26,8 @@ def sendquery_jobs(tier):
                             continue  # the request would not use the TCP connection its sibling is on
                         if pre and (not existing or sibling or nsrv == 2):
                             continue
+                        if sibling and nsrv == 2:
+                            continue  # measured: no verdict within 2400 CPU s (sendquery_srv2_*_sib1); sibling effects are server-count independent (srv1 jobs)
                         if pre and existing == 2 and not usevc:
                             continue
                         J.append(dict(
